@@ -18,9 +18,18 @@ use crate::engine::Assignments;
 use crate::engine::EmptyDomain;
 
 /// Number of domains. Id 0 is the solver's dummy "always true" variable (fixed to 1).
-pub(crate) const NV: usize = 6;
+pub(crate) const NV: usize = 5;
 /// Hole capacity per domain.
-pub(crate) const NH: usize = 3;
+pub(crate) const NH: usize = 2;
+
+/// Harness-internal loops are written as straight-line code so that the `#[kani::unwind]` bound
+/// of a harness only has to cover the loops of the code under test.
+macro_rules! unroll {
+    ($i:ident in [$($v:expr),*] $body:block) => {
+        $( { let $i: usize = $v; $body } )*
+    };
+}
+pub(crate) use unroll;
 
 /// The real `Assignments` object handed to the code under test. Under Kani it only carries the
 /// (empty) trail; under native replay it is the real thing.
@@ -34,11 +43,9 @@ pub(crate) fn assignments() -> &'static mut Assignments {
             // iterator stub; the placeholder bounds are never read through the stubs.
             #[cfg(kani)]
             {
-                let mut i = 1;
-                while i < NV {
+                unroll!(_i in [1, 2, 3, 4] {
                     let _ = assignments.grow(i32::MIN, i32::MIN);
-                    i += 1;
-                }
+                });
             }
             ASSIGNMENTS = Some(assignments);
         }
@@ -50,184 +57,218 @@ pub(crate) fn assignments() -> &'static mut Assignments {
 mod backend {
     use super::*;
 
-    pub(crate) static mut LB: [i32; NV] = [1, 0, 0, 0, 0, 0];
-    pub(crate) static mut UB: [i32; NV] = [1, 0, 0, 0, 0, 0];
-    pub(crate) static mut HOLE: [[i32; NH]; NV] = [[0; NH]; NV];
-    pub(crate) static mut NHOLE: [usize; NV] = [0; NV];
-    /// Pending domain events per domain, as the real `EventSink` would hold them
-    /// (bit 0 Assign, 1 LowerBound, 2 UpperBound, 3 Removal).
-    pub(crate) static mut EVENTS: [u8; NV] = [0; NV];
+    // The store is a set of *scalars* selected by `match`, not arrays: the code under test reads
+    // domains through ids that come out of heap memory (symbolic indices for CBMC), and CBMC's
+    // array theory grows quadratically with the number of such reads (measured: 5 M variables
+    // for the two-variable maximum propagator with arrays).
+    #[derive(Clone, Copy)]
+    pub(crate) struct Dom {
+        pub(crate) lb: i32,
+        pub(crate) ub: i32,
+        pub(crate) h0: i32,
+        pub(crate) h1: i32,
+        pub(crate) nholes: usize,
+        /// Pending domain events, as the real `EventSink` would hold them
+        /// (bit 0 Assign, 1 LowerBound, 2 UpperBound, 3 Removal).
+        pub(crate) events: u8,
+    }
+
+    const FIXED_ONE: Dom = Dom { lb: 1, ub: 1, h0: 0, h1: 0, nholes: 0, events: 0 };
+    const EMPTY: Dom = Dom { lb: 0, ub: 0, h0: 0, h1: 0, nholes: 0, events: 0 };
+
+    static mut D0: Dom = FIXED_ONE;
+    static mut D1: Dom = EMPTY;
+    static mut D2: Dom = EMPTY;
+    static mut D3: Dom = EMPTY;
+    static mut D4: Dom = EMPTY;
     /// Snapshot taken by `push_level` (one level of backtracking is modelled).
-    static mut SAVED: ([i32; NV], [i32; NV], [[i32; NH]; NV], [usize; NV]) =
-        ([0; NV], [0; NV], [[0; NH]; NV], [0; NV]);
+    static mut SAVED: [Dom; NV] = [EMPTY; NV];
+
+    #[inline(always)]
+    fn get(d: usize) -> Dom {
+        unsafe {
+            match d {
+                0 => D0,
+                1 => D1,
+                2 => D2,
+                3 => D3,
+                _ => D4,
+            }
+        }
+    }
+
+    #[inline(always)]
+    fn put(d: usize, value: Dom) {
+        unsafe {
+            match d {
+                0 => D0 = value,
+                1 => D1 = value,
+                2 => D2 = value,
+                3 => D3 = value,
+                _ => D4 = value,
+            }
+        }
+    }
 
     pub(crate) fn push_level() {
         unsafe {
-            SAVED = (LB, UB, HOLE, NHOLE);
+            SAVED = [D0, D1, D2, D3, D4];
         }
+        // the real trail carries the decision level the code under test can ask for
+        assignments().increase_decision_level();
     }
 
     pub(crate) fn pop_level() {
         unsafe {
-            LB = SAVED.0;
-            UB = SAVED.1;
-            HOLE = SAVED.2;
-            NHOLE = SAVED.3;
-            EVENTS = [0; NV];
+            D0 = SAVED[0];
+            D1 = SAVED[1];
+            D2 = SAVED[2];
+            D3 = SAVED[3];
+            D4 = SAVED[4];
+            D0.events = 0;
+            D1.events = 0;
+            D2.events = 0;
+            D3.events = 0;
+            D4.events = 0;
         }
+        let level = assignments().get_decision_level();
+        assert!(level >= 1, "[HARNESS] pop_level without push_level");
+        let _ = assignments().trail.synchronise(level - 1).count();
     }
 
     pub(crate) fn take_events(d: usize) -> u8 {
-        unsafe {
-            let e = EVENTS[d];
-            EVENTS[d] = 0;
-            e
-        }
-    }
-
-    fn event(d: usize, bit: u8) {
-        unsafe {
-            EVENTS[d] |= bit;
-        }
-    }
-
-    fn assign_event_if_fixed(d: usize) {
-        if lb(d) == ub(d) {
-            event(d, EV_ASSIGN);
-        }
+        let mut dom = get(d);
+        let e = dom.events;
+        dom.events = 0;
+        put(d, dom);
+        e
     }
 
     #[inline(always)]
     pub(crate) fn lb(d: usize) -> i32 {
-        unsafe { LB[d] }
+        get(d).lb
     }
     #[inline(always)]
     pub(crate) fn ub(d: usize) -> i32 {
-        unsafe { UB[d] }
+        get(d).ub
     }
 
-    pub(crate) fn is_hole(d: usize, v: i32) -> bool {
-        let mut i = 0;
-        let mut found = false;
-        while i < NH {
-            unsafe {
-                if i < NHOLE[d] && HOLE[d][i] == v {
-                    found = true;
-                }
-            }
-            i += 1;
-        }
-        found
+    fn hole_in(dom: &Dom, v: i32) -> bool {
+        (dom.nholes >= 1 && dom.h0 == v) || (dom.nholes >= 2 && dom.h1 == v)
     }
 
     pub(crate) fn contains(d: usize, v: i32) -> bool {
-        lb(d) <= v && v <= ub(d) && !is_hole(d, v)
+        let dom = get(d);
+        dom.lb <= v && v <= dom.ub && !hole_in(&dom, v)
     }
 
     /// Domains are created in id order 1, 2, ...; `holes` are arbitrary values different from
     /// both bounds and from each other (they may lie outside the bounds, as stale holes do).
     pub(crate) fn create(d: usize, l: i32, u: i32, holes: &[i32]) {
-        unsafe {
-            LB[d] = l;
-            UB[d] = u;
-            NHOLE[d] = holes.len();
-            let mut i = 0;
-            while i < NH {
-                if i < holes.len() {
-                    HOLE[d][i] = holes[i];
-                }
-                i += 1;
-            }
-        }
+        assert!(d >= 1 && d < NV, "[HARNESS] domain id outside the shadow store");
+        let dom = Dom {
+            lb: l,
+            ub: u,
+            h0: if holes.len() >= 1 { holes[0] } else { 0 },
+            h1: if holes.len() >= 2 { holes[1] } else { 0 },
+            nholes: holes.len(),
+            events: 0,
+        };
+        put(d, dom);
     }
 
-    fn skip_holes_up(d: usize) {
-        let mut k = 0;
-        while k < NH {
-            unsafe {
-                if LB[d] <= UB[d] && is_hole(d, LB[d]) {
-                    LB[d] += 1;
-                }
+    fn skip_holes_up(dom: &mut Dom) {
+        // at most NH holes can be skipped
+        unroll!(_k in [0, 1] {
+            if dom.lb <= dom.ub && hole_in(dom, dom.lb) {
+                dom.lb += 1;
             }
-            k += 1;
-        }
+        });
     }
 
-    fn skip_holes_down(d: usize) {
-        let mut k = 0;
-        while k < NH {
-            unsafe {
-                if LB[d] <= UB[d] && is_hole(d, UB[d]) {
-                    UB[d] -= 1;
-                }
+    fn skip_holes_down(dom: &mut Dom) {
+        unroll!(_k in [0, 1] {
+            if dom.lb <= dom.ub && hole_in(dom, dom.ub) {
+                dom.ub -= 1;
             }
-            k += 1;
-        }
+        });
     }
 
-    fn verify(d: usize) -> Result<(), EmptyDomain> {
-        if lb(d) > ub(d) {
+    fn verify(dom: &Dom) -> Result<(), EmptyDomain> {
+        if dom.lb > dom.ub {
             Err(EmptyDomain)
         } else {
             Ok(())
         }
     }
 
+    fn assign_event_if_fixed(dom: &mut Dom) {
+        if dom.lb == dom.ub {
+            dom.events |= EV_ASSIGN;
+        }
+    }
+
     pub(crate) fn tighten_lb(d: usize, new_lb: i32) -> Result<(), EmptyDomain> {
-        if new_lb <= lb(d) {
-            return verify(d);
+        let mut dom = get(d);
+        if new_lb <= dom.lb {
+            return verify(&dom);
         }
-        unsafe {
-            LB[d] = new_lb;
-        }
-        event(d, EV_LOWER);
-        skip_holes_up(d);
-        assign_event_if_fixed(d);
-        verify(d)
+        dom.lb = new_lb;
+        dom.events |= EV_LOWER;
+        skip_holes_up(&mut dom);
+        assign_event_if_fixed(&mut dom);
+        put(d, dom);
+        verify(&dom)
     }
 
     pub(crate) fn tighten_ub(d: usize, new_ub: i32) -> Result<(), EmptyDomain> {
-        if new_ub >= ub(d) {
-            return verify(d);
+        let mut dom = get(d);
+        if new_ub >= dom.ub {
+            return verify(&dom);
         }
-        unsafe {
-            UB[d] = new_ub;
-        }
-        event(d, EV_UPPER);
-        skip_holes_down(d);
-        assign_event_if_fixed(d);
-        verify(d)
+        dom.ub = new_ub;
+        dom.events |= EV_UPPER;
+        skip_holes_down(&mut dom);
+        assign_event_if_fixed(&mut dom);
+        put(d, dom);
+        verify(&dom)
     }
 
     pub(crate) fn remove(d: usize, v: i32) -> Result<(), EmptyDomain> {
-        if !contains(d, v) {
-            return verify(d);
+        let mut dom = get(d);
+        if !(dom.lb <= v && v <= dom.ub && !hole_in(&dom, v)) {
+            return verify(&dom);
         }
-        event(d, EV_REMOVAL);
-        unsafe {
-            if LB[d] == v && UB[d] == v {
-                // the domain becomes empty
-                UB[d] = v - 1;
-                return Err(EmptyDomain);
-            }
-            if LB[d] == v {
-                LB[d] = v + 1;
-                event(d, EV_LOWER);
-                skip_holes_up(d);
-            } else if UB[d] == v {
-                UB[d] = v - 1;
-                event(d, EV_UPPER);
-                skip_holes_down(d);
+        dom.events |= EV_REMOVAL;
+        if dom.lb == v && dom.ub == v {
+            // the domain becomes empty (canonical empty interval, no arithmetic on `v`)
+            dom.lb = 1;
+            dom.ub = 0;
+            put(d, dom);
+            return Err(EmptyDomain);
+        }
+        if dom.lb == v {
+            dom.lb = v + 1;
+            dom.events |= EV_LOWER;
+            skip_holes_up(&mut dom);
+        } else if dom.ub == v {
+            dom.ub = v - 1;
+            dom.events |= EV_UPPER;
+            skip_holes_down(&mut dom);
+        } else {
+            // A harness whose propagator makes more holes than the store can hold is
+            // reported as broken rather than silently truncated.
+            assert!(dom.nholes < NH, "[HARNESS] shadow store hole capacity exceeded");
+            if dom.nholes == 0 {
+                dom.h0 = v;
             } else {
-                // A harness whose propagator makes more holes than the store can hold is
-                // reported as broken rather than silently truncated.
-                assert!(NHOLE[d] < NH, "[HARNESS] shadow store hole capacity exceeded");
-                HOLE[d][NHOLE[d]] = v;
-                NHOLE[d] += 1;
+                dom.h1 = v;
             }
+            dom.nholes += 1;
         }
-        assign_event_if_fixed(d);
-        verify(d)
+        assign_event_if_fixed(&mut dom);
+        put(d, dom);
+        verify(&dom)
     }
 
     pub(crate) fn assign(d: usize, v: i32) -> Result<(), EmptyDomain> {
@@ -237,7 +278,7 @@ mod backend {
         if ub(d) > v {
             tighten_ub(d, v)?;
         }
-        verify(d)
+        verify(&get(d))
     }
 }
 
@@ -362,19 +403,16 @@ pub(crate) fn init_within(d: usize, lo: i32, hi: i32, holes: usize) {
 
 pub(crate) fn init_range(d: usize, l: i32, u: i32, holes: usize) {
     let mut values = [0i32; NH];
-    let mut i = 0;
-    while i < NH {
-        if i < holes {
-            let h: i32 = kani::any();
-            kani::assume(h != l && h != u);
-            let mut j = 0;
-            while j < i {
-                kani::assume(values[j] != h);
-                j += 1;
-            }
-            values[i] = h;
-        }
-        i += 1;
+    assert!(holes <= NH, "[HARNESS] more holes requested than the store can hold");
+    if holes >= 1 {
+        let h: i32 = kani::any();
+        kani::assume(h != l && h != u);
+        values[0] = h;
+    }
+    if holes >= 2 {
+        let h: i32 = kani::any();
+        kani::assume(h != l && h != u && h != values[0]);
+        values[1] = h;
     }
     backend::create(d, l, u, &values[..holes]);
 }
@@ -452,13 +490,11 @@ impl crate::engine::IntegerDomainIterator<'_> {
             assert!(*cursor < i32::MAX, "[HARNESS] domain iterator stub reached i32::MAX");
             *cursor += 1;
             // at most NH holes can be skipped
-            let mut k = 0;
-            while k < NH {
+            unroll!(_k in [0, 1] {
                 if *cursor <= ub(d) && !contains(d, *cursor) {
                     *cursor += 1;
                 }
-                k += 1;
-            }
+            });
         }
         result
     }
